@@ -59,8 +59,27 @@ func argU(a string, bits int) uint64 {
 
 // ---- implementation side ----------------------------------------------------------------------
 
+// Half of the decoding cases (chosen by the arguments, so a case always runs the same way) hand the decoder a receiver
+// that has already decoded something else: the result must depend on the input alone.
+func c13Used(a []string) bool {
+	h := uint32(2166136261)
+	for _, s := range a {
+		for i := 0; i < len(s); i++ {
+			h = (h ^ uint32(s[i])) * 16777619
+		}
+	}
+	return h&1 == 0
+}
+
+var c13Earlier = []byte{0xFE, 0xDC, 0xBA, 0x98, 0x76, 0x54, 0x1F, 0xED, 0xBC, 0xBA, 0x98, 0x76, 0x54, 0x32, 0x1F, 0xFF}
+
+const c13EarlierText = "fedcba98-7654-1fed-bcba-98765432ffff"
+
 func c13UUIDUnmarshal(a []string) string {
 	var u muuid.UUID
+	if c13Used(a) {
+		u.Unmarshal(c13Earlier)
+	}
 	if _, err := u.Unmarshal(unhx(a[0])); err != nil {
 		return "err"
 	}
@@ -81,6 +100,9 @@ func c13UUIDMarshal(a []string) string {
 		return "err"
 	}
 	var w muuid.UUID
+	if c13Used(a) {
+		w.FromString("fedcba98-7654-1fed-bcba-98765432ffff")
+	}
 	if _, err := w.Unmarshal(m); err != nil {
 		return "err"
 	}
@@ -89,6 +111,9 @@ func c13UUIDMarshal(a []string) string {
 
 func c13UUIDParse(a []string) string {
 	var u muuid.UUID
+	if c13Used(a) {
+		u.FromString(c13EarlierText)
+	}
 	if err := u.FromString(txt(a[0])); err != nil {
 		return "err"
 	}
@@ -101,6 +126,9 @@ func v1Show(u *uuid_v1.UUIDv1) []string {
 
 func c13V1Unmarshal(a []string) string {
 	var u uuid_v1.UUIDv1
+	if c13Used(a) {
+		u.Unmarshal(c13Earlier)
+	}
 	if _, err := u.Unmarshal(unhx(a[0])); err != nil {
 		return "err"
 	}
@@ -114,6 +142,9 @@ func c13V1Unmarshal(a []string) string {
 
 func c13V1ClockSeq(a []string) string {
 	var u uuid_v1.UUIDv1
+	if c13Used(a) {
+		u.FromBytes(c13Earlier)
+	}
 	if err := u.FromBytes(unhx(a[0])); err != nil {
 		return "err"
 	}
@@ -133,6 +164,9 @@ func c13V1Marshal(a []string) string {
 		return "err"
 	}
 	var w uuid_v1.UUIDv1
+	if c13Used(a) {
+		w.FromString("fedcba98-7654-1fed-bcba-98765432ffff")
+	}
 	if _, err := w.Unmarshal(m); err != nil {
 		return "err"
 	}
@@ -141,6 +175,9 @@ func c13V1Marshal(a []string) string {
 
 func c13V1Parse(a []string) string {
 	var u uuid_v1.UUIDv1
+	if c13Used(a) {
+		u.FromString(c13EarlierText)
+	}
 	if err := u.FromString(txt(a[0])); err != nil {
 		return "err"
 	}
@@ -154,6 +191,9 @@ func v2Show(u *uuid_v2.UUIDv2) []string {
 
 func c13V2Unmarshal(a []string) string {
 	var u uuid_v2.UUIDv2
+	if c13Used(a) {
+		u.Unmarshal(append([]byte{}, 0xFE, 0xDC, 0xBA, 0x98, 0x76, 0x54, 0x2F, 0xED, 0xBC, 0xBA, 0x98, 0x76, 0x54, 0x32, 0x1F, 0xFF))
+	}
 	if _, err := u.Unmarshal(unhx(a[0])); err != nil {
 		return "err"
 	}
@@ -180,6 +220,9 @@ func c13V2Marshal(a []string) string {
 		return "err"
 	}
 	var w uuid_v2.UUIDv2
+	if c13Used(a) {
+		w.FromString("fedcba98-7654-2fed-bcba-98765432ffff")
+	}
 	if _, err := w.Unmarshal(m); err != nil {
 		return "err"
 	}
@@ -188,6 +231,9 @@ func c13V2Marshal(a []string) string {
 
 func c13V2Parse(a []string) string {
 	var u uuid_v2.UUIDv2
+	if c13Used(a) {
+		u.FromString("fedcba98-7654-2fed-bcba-98765432ffff")
+	}
 	if err := u.FromString(txt(a[0])); err != nil {
 		return "err"
 	}
@@ -196,6 +242,9 @@ func c13V2Parse(a []string) string {
 
 func c13V8Unmarshal(a []string) string {
 	var u uuid_v8.UUIDv8
+	if c13Used(a) {
+		u.Unmarshal(append([]byte{}, 0xFE, 0xDC, 0xBA, 0x98, 0x76, 0x54, 0x8F, 0xED, 0xBC, 0xBA, 0x98, 0x76, 0x54, 0x32, 0x1F, 0xFF))
+	}
 	if _, err := u.Unmarshal(unhx(a[0])); err != nil {
 		return "err"
 	}
@@ -216,6 +265,9 @@ func c13V8Marshal(a []string) string {
 		return "err"
 	}
 	var w uuid_v8.UUIDv8
+	if c13Used(a) {
+		w.FromString("fedcba98-7654-8fed-bcba-98765432ffff")
+	}
 	if _, err := w.Unmarshal(m); err != nil {
 		return "err"
 	}
@@ -224,6 +276,9 @@ func c13V8Marshal(a []string) string {
 
 func c13V8Parse(a []string) string {
 	var u uuid_v8.UUIDv8
+	if c13Used(a) {
+		u.FromString("fedcba98-7654-8fed-bcba-98765432ffff")
+	}
 	if err := u.FromString(txt(a[0])); err != nil {
 		return "err"
 	}
@@ -241,6 +296,9 @@ func argG(a []string) *guid.GUID {
 // through the MS-DTYP alias type
 func c13GuidFromRaw(a []string) string {
 	var g data_structures.GUID
+	if c13Used(a) {
+		g.FromRawBytes(c13Earlier)
+	}
 	g.FromRawBytes(unhx(a[0]))
 	return okL(append(gShow(&g), hx(g.ToBytes()))...)
 }
@@ -249,6 +307,9 @@ func c13GuidToBytes(a []string) string {
 	g := argG(a)
 	m := g.ToBytes()
 	var w guid.GUID
+	if c13Used(a) {
+		w.FromRawBytes(c13Earlier)
+	}
 	w.FromRawBytes(m)
 	return okL(append([]string{hx(m)}, gShow(&w)...)...)
 }
